@@ -29,6 +29,7 @@ TokSign = UF('tok.sign', StrS, StrS)
 TokName = UF('tok.name', StrS, StrS)
 TokHasFmt = UF('tok.has_format', StrS, BoolS)
 TokFmt = UF('tok.format', StrS, StrS)
+IsDecimal = UF('str.isdecimal', StrS, BoolS)
 RESERVED = ['date', 'amount', 'location', 'description', '_', '*', 'field']
 ArrSI = z3.ArraySort(StrS, IntS)
 SetS = z3.SetSort(StrS)
@@ -142,6 +143,7 @@ def h_parse_format_string(ctx):
     # the references of the description template: the names str.format will look up (stdlib's string.Formatter().parse inside the helper
     # _template_fields - trusted, bounded stand-in), or ValueError for a template str.format cannot read at all
     seen_refs = {}
+    sp.models['method:str.isdecimal'] = Func(lambda I_, a, k, n: IsDecimal(to_z3(a[0], StrS)))
 
     def m_template_fields(I_, a, k, n):
         seen_refs['called'] = True
@@ -191,7 +193,9 @@ def h_parse_format_string(ctx):
     def inv_refs(I_, env, k, it):
         caps = env['custom_captures'] if 'custom_captures' in env else next((v for v in env.values() if isinstance(v, SymMap)), None)
         ca, cd = map_parts(caps, 'custom_captures')
-        return {'every_reference_read_so_far_names_a_captured_column': z3.Implies(z3.And(j >= 0, j < k), z3.IsMember(it.cols[0][j], cd))}
+        ref_j = it.cols[0][j]
+        # ... and is a NAME: str.format reads a reference made of digits as a positional argument ({0}), never as the column called 0
+        return {'every_reference_read_so_far_names_a_captured_column': z3.Implies(z3.And(j >= 0, j < k), z3.And(z3.IsMember(ref_j, cd), z3.Not(IsDecimal(ref_j))))}
     # ... wherever that loop is: in parse_format_string itself or in a helper of the module it was moved to
     ref_loops = 0
     for fname, fnode in fi.mod.functions.items():
@@ -251,7 +255,8 @@ def h_parse_format_string(ctx):
     if not has_template:
         ctx.check('C18.captures_without_template_rejected', z3.Or(has_desc, z3.Not(has_cc)), 'property')
     elif seen_refs.get('called'):
-        ctx.check('C18.accepted_template_names_captured_columns_only', z3.Implies(z3.And(j >= 0, j < z3.Length(refs)), z3.IsMember(refs[j], CCd(s, n))), 'property')
+        ctx.check('C18.accepted_template_names_captured_columns_only',
+                  z3.Implies(z3.And(j >= 0, j < z3.Length(refs)), z3.And(z3.IsMember(refs[j], CCd(s, n)), z3.Not(IsDecimal(refs[j])))), 'property')
     ctx.cover('parse_format_string.returns')
 
 
@@ -414,6 +419,8 @@ ORACLES = [
 ]
 TRUSTED_BASE = ['pyvc symbolic executor', 'z3 5.1.0 / cvc5 1.0.3',
                 'the tokenizer regular expression is an uninterpreted function tok(part) (A6): bounded stand-in only', 'str.split / str.strip / str.lower uninterpreted']
-ASSUMPTIONS = ['A6 regular expressions opaque']
+ASSUMPTIONS = ['A6 regular expressions opaque',
+               'string.Formatter().parse(text) is an uninterpreted sequence of (literal, field name, format spec, conversion); the names str.format looks up are, per the '
+               'language reference, each field name followed by the lookups of its format spec; an empty format spec has none (axiom)']
 EXPLANATION = ('Loop invariants over positional ghost folds on the real parse_format_string (symbolic number of columns, opaque tokenizer), validation exits proved to raise '
                'only ValueError, position-reading lemma by induction; bounded stand-in (labelled): exhaustive small arrangements and the inspect round trip.')
